@@ -11,7 +11,8 @@ COQ = '/verif/coq'
 # property -> list of (pinned theorem name, module, lemma)
 TABLE = {
  'C01': [
-  ('C01_closed_u64', 'Instances', 'run_refines_u64'), ('C01_closed_h256', 'Instances', 'run_refines_h256'), ('C01_closed_nested', 'NestedP', 'run_refines_nl'), ('C01_nonvacuous_state', 'Instances', 'example_written'), ('C01_initial_state', 'Instances', 'SysInv_initial'),
+  ('C01_closed_u64', 'Instances', 'run_refines_u64'), ('C01_closed_h256', 'Instances', 'run_refines_h256'), ('C01_closed_nested', 'NestedP', 'run_refines_nl'),
+  ('C01_every_configuration_refines', 'ClosureP', 'every_configuration_refines'), ('C01_every_configuration_step', 'ClosureP', 'every_configuration_step'), ('C01_kinds_packing', 'ClosureP', 'kinds_packing'), ('C01_nonvacuous_state', 'Instances', 'example_written'), ('C01_initial_state', 'Instances', 'SysInv_initial'),
   ('C01_get', 'IfaceP', 'iface_get_spec'), ('C01_len', 'IfaceP', 'iface_len_spec'),
   ('C01_get_mut_write', 'IfaceP', 'get_mut_write_spec'), ('C01_push', 'IfaceP', 'push_spec_list'),
   ('C01_push_full', 'IfaceP', 'push_spec_full'), ('C01_bulk', 'IfaceP', 'bulk_spec'),
@@ -37,7 +38,7 @@ TABLE = {
   ('C03_intra_gok', 'CollObsP', 'coll_intra_spec_gok'),
   ('C03_inv', 'Refine', 'step_refines'),
   ('C03_hash_invisible', 'InvisibleP', 'hash_invisible'), ('C03_silent_ops_invisible', 'InvisibleP', 'silent_ops_invisible'),
-  ('C03_invisible_example', 'InvisibleP', 'invisible_u64'), ('C03_abandoned_hashing_is_harmless', 'FaultP', 'abandoned_hashing_is_harmless'),
+  ('C03_invisible_example', 'InvisibleP', 'invisible_u64'), ('C03_abandoned_hashing_is_harmless', 'FaultP', 'abandoned_hashing_is_harmless'), ('C03_hash_invisible_every_configuration', 'ClosureP', 'hash_invisible_all'),
  ],
  'C04': [
   ('C04_spec_frame', 'FinalP', 'spec_frame'), ('C04_versions_isolated', 'FinalP', 'versions_isolated'), ('C04_versions_isolated_obs', 'FinalP', 'versions_isolated_obs'),
@@ -65,7 +66,7 @@ TABLE = {
   ('C07_state', 'RebaseP', 'rebase_state'), ('C07_coll', 'RebaseP', 'coll_rebase_on_hinv'),
   ('C07_coll_demonic', 'RebaseP', 'coll_rebase_on_dem'), ('C07_gok', 'CollObsP', 'coll_rebase_spec'),
   ('C07_hash_inj', 'HashP', 'shash_canon_inj'), ('C07_refines', 'RefineB', 'refines_ORebaseOn'), ('C07_refines_rebase', 'RefineB', 'refines_ORebase'),
-  ('C07_rebase_invisible', 'InvisibleP', 'rebase_invisible'), ('C07_silent_ops_invisible', 'InvisibleP', 'silent_ops_invisible'),
+  ('C07_rebase_invisible', 'InvisibleP', 'rebase_invisible'), ('C07_silent_ops_invisible', 'InvisibleP', 'silent_ops_invisible'), ('C07_rebase_invisible_every_configuration', 'ClosureP', 'rebase_invisible_all'),
  ],
  'C08': [
   ('C08_paths_cf', 'FinalP', 'rebase_sharing_paths_cf'), ('C08_paths_vec_cf', 'FinalP', 'rebase_sharing_paths_vec_cf'), ('C08_coll_paths_cf', 'FinalP', 'sharing_paths_cf'), ('C08_sharing_cf', 'FinalP', 'rebase_sharing_cf'), ('C08_equal_share_all', 'FinalP', 'sharing_equal'), ('C08_fresh_on_differing_paths', 'FinalP', 'fresh_differs'),
@@ -78,7 +79,7 @@ TABLE = {
   ('C09_coll_memo', 'IntraP', 'coll_intra_spec_memo'), ('C09_pinned_refuted', 'IntraP', 'intra_pinned_refuted'),
   ('C09_pinned_not_shape_preserving', 'IntraP', 'intra_pinned_not_shape_preserving'),
   ('C09_fixed_on_witness', 'IntraP', 'intra_fixed_on_witness'), ('C09_gok', 'CollObsP', 'coll_intra_spec_gok'), ('C09_refines', 'RefineB', 'refines_OIntra'),
-  ('C09_intra_is_flush', 'InvisibleP', 'intra_is_flush'), ('C09_silent_ops_invisible', 'InvisibleP', 'silent_ops_invisible'),
+  ('C09_intra_is_flush', 'InvisibleP', 'intra_is_flush'), ('C09_silent_ops_invisible', 'InvisibleP', 'silent_ops_invisible'), ('C09_intra_is_flush_every_configuration', 'ClosureP', 'intra_is_flush_all'),
  ],
  'C10': [
   ('C10_rehash_only_new', 'FinalP', 'rehash_only_new'), ('C10_rehash_recomputed', 'FinalP', 'rehash_recomputed'), ('C10_flush_then_hash', 'FinalP', 'flush_rehash_only_new'),
@@ -87,6 +88,7 @@ TABLE = {
   ('C10_repeat_nodes', 'RepeatP', 'repeat_nodes'), ('C10_pop_front_reuse', 'BuilderP', 'feed_canon_idf'),
   ('C10_level_items_shared', 'IterP', 'list_level_iter_from_spec'), ('C10_clone', 'Refine', 'clone_allocates_nothing'),
   ('C10_pop_front', 'CollCtorP', 'pop_front_spec'),
+  ('C10_size_packed', 'ClosureP', 'snodes_canon_packed_le'), ('C10_reachable_node_bound', 'ClosureP', 'reachable_node_bound_all'), ('C10_reachable_node_bound_capacity_free', 'ClosureP', 'reachable_node_bound_capfree'),
  ],
  'C11': [
   ('C11_iter_yields', 'IterP', 'iter_yields'), ('C11_iter_from', 'IterP', 'coll_iter_from_spec'),
@@ -113,7 +115,8 @@ TABLE = {
   ('C13_de_vec', 'CollObsP', 'vector_serde_de_ok'), ('C13_de_vec_wrong_len', 'CollObsP', 'vector_serde_de_fail'), ('C13_ser_refines', 'RefineB', 'refines_OSerdeSer'), ('C13_de_refines', 'RefineB', 'refines_OSerdeList'), ('C13_de_vec_refines', 'RefineB', 'refines_OSerdeVec'), ('C13_de_eq', 'CodecP', 'list_serde_de_eq'),
  ],
  'C14': [
-  ('C14_closed_u64', 'Instances', 'maps_unobservable_u64'), ('C14_closed_nested', 'NestedP', 'maps_unobservable_nl'),
+  ('C14_closed_u64', 'Instances', 'maps_unobservable_u64'), ('C14_closed_nested', 'NestedP', 'maps_unobservable_nl'), ('C14_every_kind_every_pair_of_maps', 'ClosureP', 'maps_unobservable_all'), ('C14_three_maps_agree', 'ClosureP', 'maps_unobservable_three'),
+  ('C14_vecmap_all', 'ClosureP', 'vecmap_lawful_all'), ('C14_btmap_all', 'ClosureP', 'btmap_lawful_all'), ('C14_maxmap_all', 'ClosureP', 'maxmap_vecmap_lawful_all'),
   ('C14_vecmap', 'UMapP', 'vecmap_lawful'), ('C14_btmap', 'UMapP', 'btmap_lawful'), ('C14_maxmap', 'UMapP', 'maxmap_lawful'),
   ('C14_get', 'IfaceP', 'iface_get_spec'), ('C14_len', 'IfaceP', 'iface_len_spec'), ('C14_flush', 'WulP', 'wul_canon'),
   ('C14_bulk', 'IfaceP', 'bulk_spec'), ('C14_needs_exact_max', 'IfaceP', 'bulk_update_needs_max_exact'),
@@ -125,7 +128,7 @@ TABLE = {
   ('C15_intra_total', 'IntraP', 'intra_total'), ('C15_builder_depth', 'BuilderP', 'new_invalid_depth'),
   ('C15_repeat_total', 'RepeatP', 'repeat_nodes'), ('C15_flush', 'CollCtorP', 'apply_spec'),
   ('C15_pop_front', 'CollCtorP', 'pop_front_spec'), ('C15_to_vector', 'CollCtorP', 'vector_try_from_spec'),
-  ('C15_decode_total', 'CollObsP', 'list_from_ssz_strict_spec'), ('C15_step_safe', 'Refine', 'step_safe'), ('C15_no_panic', 'Refine', 'step_no_panic'), ('C15_refines', 'Refine', 'step_refines'), ('C15_bounds', 'Refine', 'reachable_bounds'),
+  ('C15_decode_total', 'CollObsP', 'list_from_ssz_strict_spec'), ('C15_step_safe', 'Refine', 'step_safe'), ('C15_no_panic', 'Refine', 'step_no_panic'), ('C15_refines', 'Refine', 'step_refines'), ('C15_bounds', 'Refine', 'reachable_bounds'), ('C15_every_configuration_step', 'ClosureP', 'every_configuration_step'),
  ],
  'C16': [
   ('C16_step_sound', 'ConcP', 'astep_sound'), ('C16_any_schedule_safe', 'ConcP', 'any_schedule_safe'),
